@@ -487,7 +487,7 @@ func (l *lexer) scan() {
 			case ast.ContextCSSString:
 				switch c {
 				case '\\':
-					if p+1 < len(l.src) && l.src[p+1] == quote {
+					if p+1 < len(l.src) && (l.src[p+1] == quote || l.src[p+1] == '\\') {
 						p++
 						l.column++
 					}
@@ -539,7 +539,7 @@ func (l *lexer) scan() {
 			case ast.ContextJSString:
 				switch c {
 				case '\\':
-					if p+1 < len(l.src) && l.src[p+1] == quote {
+					if p+1 < len(l.src) && (l.src[p+1] == quote || l.src[p+1] == '\\') {
 						p++
 						l.column++
 					}
@@ -569,7 +569,7 @@ func (l *lexer) scan() {
 			case ast.ContextJSONString:
 				switch c {
 				case '\\':
-					if p+1 < len(l.src) && l.src[p+1] == '"' {
+					if p+1 < len(l.src) && (l.src[p+1] == '"' || l.src[p+1] == '\\') {
 						p++
 						l.column++
 					}
